@@ -906,7 +906,7 @@ def eval_farith(o, a, b, w):
 
 FP_OPS = {"fadd", "fsub", "fmul", "fdiv", "call:llvm.sqrt", "call:llvm.fma", "call:llvm.fmuladd",
           "call:llvm.trunc", "call:llvm.floor", "call:llvm.ceil", "call:llvm.round", "call:llvm.roundeven",
-          "call:llvm.rint", "sitofp", "uitofp", "fptosi", "fptoui", "fpext", "fptrunc", "x86.cvt"}
+          "call:llvm.rint", "sitofp", "uitofp", "fptosi", "fptoui", "fpext", "fptrunc", "x86.cvt", "x86.scalef"}
 
 
 def has_fp(t):
@@ -967,6 +967,8 @@ def _ev_fp(t, env, memo):
         return n & mask(w)
     if o in ("fpext", "fptrunc"):
         return fpeval.convert(ev(t[2], env, memo), t[2][1], w, rm)
+    if o == "x86.scalef":
+        return fpeval.x86_scalef(ev(t[2], env, memo), ev(t[3], env, memo), w, rm)
     if o == "x86.cvt":
         # (x, signed, how)  how in trunc / rint
         x = t[2]
@@ -1853,6 +1855,43 @@ def _ev(t, env, memo):
             s = _signed(vs[0], w) - _signed(vs[1], w)
             return max(min(s, (1 << (w - 1)) - 1), -(1 << (w - 1))) & M
         raise Uneval(n)
+    if o in ("x86.getexp", "x86.getmant", "x86.fixupimm", "x86.range"):
+        import fpeval
+        if o == "x86.getexp":
+            return fpeval.x86_getexp(ev(t[2], env, memo), w)
+        if o == "x86.getmant":
+            return fpeval.x86_getmant(ev(t[2], env, memo), t[3], w)
+        if o == "x86.fixupimm":
+            return fpeval.x86_fixupimm(ev(t[2], env, memo), ev(t[3], env, memo), ev(t[4], env, memo), w)
+        r = fpeval.x86_range(ev(t[2], env, memo), ev(t[3], env, memo), t[4], w)
+        if r is None:
+            raise Uneval("vrange abs variants")
+        return r
+    if o == "x86.permx":
+        # VPERMB/VPERMI2B family, one result element: element (index mod entries) of the table
+        tab = ev(t[2], env, memo)
+        i = ev(t[3], env, memo) & (t[2][1] // w - 1)
+        return (tab >> (i * w)) & M
+    if o in ("x86.divq.q", "x86.divq.r"):
+        hi, lo, y = ev(t[2], env, memo), ev(t[3], env, memo), ev(t[4], env, memo)
+        if y == 0 or hi >= y:
+            raise Poison("divq raises #DE (divide error): RDX=%#x RAX=%#x divisor=%#x (%s)" % (
+                hi, lo, y, "zero divisor" if y == 0 else "quotient does not fit in 64 bits"))
+        num = (hi << 64) | lo
+        return num // y if o == "x86.divq.q" else num % y
+    if o == "tabload":
+        tab = ev(t[2], env, memo)
+        i = (ev(t[3], env, memo) + t[4][2]) & ((1 << 64) - 1)
+        if i * 8 + w > t[2][1]:
+            raise Poison("out-of-bounds read of a constant table at byte index %d" % i)
+        return (tab >> (i * 8)) & M
+    if o == "x86.pshufb":
+        # SDM PSHUFB, one result byte: control bit 7 set -> 0, else byte (control & 15) of the 128-bit block
+        tab = ev(t[2], env, memo)
+        c = ev(t[3], env, memo)
+        if c & 0x80:
+            return 0
+        return (tab >> ((c & 15) * 8)) & 0xFF
     if o == "x86.fpclass":
         # SDM VFPCLASS: imm bit0 QNaN, 1 +0, 2 -0, 3 +inf, 4 -inf, 5 denormal, 6 negative finite, 7 SNaN
         v = ev(t[2], env, memo)
